@@ -307,6 +307,24 @@ FIXED = [
 ]
 
 
+# witness document of every recorded defect site of the NEXUS skeleton, with the outcome class it has
+# while the site is unrepaired
+NEXUS_SITE_WITNESS = {
+    "link": ("#NEXUS\nBEGIN TREES;\nLINK FOO = x;\nEND;\n", "Hang"),
+    "positions": (NEXUS_CHARSET_PROBE, "Hang"),
+    "step0": (TAXA2 + CHARS2 + "BEGIN SETS;\nCHARSET x = 1-4\\0;\nEND;\n", "ValueErr"),
+    "empty": ("", "AttrErr"),
+    "taxlabels_eof": ("#NEXUS BEGIN TAXA; DIMENSIONS NTAX=3; TAXLABELS", "AttrErr"),
+    "taxlabels_nodims": ("#NEXUS BEGIN TAXA; TAXLABELS A B;END;", "TypeErr"),
+    "tree_eof": (TAXA2 + "BEGIN TREES;\nTREE t = ", "AttrErr"),
+    "untitled": (TAXA2 + CHARS2 + "BEGIN SETS;\nLINK CHARACTERS = c;\nCHARSET x = 1;\nEND;\n", "AttrErr"),
+    "blockterm": (TAXA2 + "BEGIN CHARACTERS;\nDIMENSIONS NCHAR=4;\nFORMAT DATATYPE=DNA;\nMATRIX\nA ACGT\nB ACG\n;\nEND;\n", "OtherErr"),
+    "datatype": (TAXA2 + "BEGIN CHARACTERS;\nDIMENSIONS NCHAR=2;\nMATRIX\nA 01\nB 10\n;\nEND;\n", "TypeErr"),
+    "truncmatrix": (TAXA2 + "BEGIN CHARACTERS;\nDIMENSIONS NCHAR=4;\nFORMAT DATATYPE=DNA;\nMATRIX\nA ACGT\n", "Ok"),
+    "charsetdup": (TAXA2 + CHARS2 + "BEGIN SETS;\nCHARSET x = 1;\nCHARSET x = 2;\nEND;\n", "ValueErr"),
+}
+
+
 def deep_probes(tier):
     out = []
     for d in ((2000,) if tier == "quick" else (1200, 2000, 20000)):
@@ -337,6 +355,8 @@ def cases(rng, tier):
     out = []
     for reader, text, kind in FIXED:
         out.append({"reader": reader, "text": text, "kind": "fixed:" + kind})
+    for name, (text, _cls) in sorted(NEXUS_SITE_WITNESS.items()):
+        out.append({"reader": "nexus", "text": text, "kind": "site-witness:" + name})
     out.extend(deep_probes(tier))
     # --- strings over the token alphabets
     for t in exhaustive(NEWICK_ALPHABET, 3 if quick else 5):
